@@ -8,7 +8,8 @@
 #define T_AUTH 3u
 #define T_BIND 4u
 #define T_STANZA 5u
-#define T_SM_REQUEST 6u
+#define T_SM_RESUME 6u
+#define T_SM_ENABLE 10u
 #define T_SM_ACK 7u
 #define T_CSI 8u
 #define T_NONZA 9u
@@ -45,8 +46,8 @@ uint8_t _ZN10QSslSocket11supportsSslEv(void) { return c04_ssl_local; }
 static uint32_t sent_n, sent_tag[SENT_CAP];
 uint8_t vp_c04_send(char *ba) { QAD *d = *(QAD**)ba; ASSERT(d != SHARED_NULL, "C04 model: empty QByteArray handed to the socket"); ASSUME(d != SHARED_NULL);
   struct c04blk *b = (struct c04blk*)d; ASSERT(b->magic == C04_MAGIC, "C04 model: bytes handed to the socket were not produced by a classified serialiser"); ASSUME(b->magic == C04_MAGIC);
-  uint32_t t = b->tag; uint8_t forbidden = (t == T_AUTH || t == T_BIND || t == T_STANZA || t == T_SM_REQUEST);
-  VP_ASSERT(!(c04_tls_required && !c04_encrypted && forbidden), "C04 credential / authentication exchange / resource binding / stanza handed to the socket although TLS is required and the link is not encrypted");
+  uint32_t t = b->tag; uint8_t forbidden = (t == T_AUTH || t == T_BIND || t == T_STANZA || t == T_SM_RESUME);
+  VP_ASSERT(!(c04_tls_required && !c04_encrypted && forbidden), "C04 credential / authentication exchange / resumption token / resource binding / stanza handed to the socket although TLS is required and the link is not encrypted");
   ASSUME(!(c04_tls_required && !c04_encrypted && forbidden));   /* what happens after a violation is not explored */
   ASSERT(sent_n < SENT_CAP, "C04 model: socket log capacity"); ASSUME(sent_n < SENT_CAP);
   sent_tag[sent_n] = t; sent_n++; return vp_bool(); }
@@ -66,8 +67,8 @@ void _ZN5QXmpp7Private12serializeXmlINS0_10StreamOpenEEE10QByteArrayRKT_(char *r
 void _ZN5QXmpp7Private12serializeXmlINS0_15StarttlsRequestEEE10QByteArrayRKT_(char *ret, char *pkt) { *(QAD**)ret = c04_blk(T_STARTTLS); }
 void _ZN5QXmpp7Private12serializeXmlI18QXmppNonSASLAuthIqEE10QByteArrayRKT_(char *ret, char *pkt) { *(QAD**)ret = c04_blk(T_AUTH); }
 void _ZN5QXmpp7Private12serializeXmlI11QXmppBindIqEE10QByteArrayRKT_(char *ret, char *pkt) { *(QAD**)ret = c04_blk(T_BIND); }
-void _ZN5QXmpp7Private12serializeXmlINS0_8SmResumeEEE10QByteArrayRKT_(char *ret, char *pkt) { *(QAD**)ret = c04_blk(T_SM_REQUEST); }
-void _ZN5QXmpp7Private12serializeXmlINS0_8SmEnableEEE10QByteArrayRKT_(char *ret, char *pkt) { *(QAD**)ret = c04_blk(T_SM_REQUEST); }
+void _ZN5QXmpp7Private12serializeXmlINS0_8SmResumeEEE10QByteArrayRKT_(char *ret, char *pkt) { *(QAD**)ret = c04_blk(T_SM_RESUME); }
+void _ZN5QXmpp7Private12serializeXmlINS0_8SmEnableEEE10QByteArrayRKT_(char *ret, char *pkt) { *(QAD**)ret = c04_blk(T_SM_ENABLE); }
 void _ZN5QXmpp7Private12serializeXmlINS0_5SmAckEEE10QByteArrayRKT_(char *ret, char *pkt) { *(QAD**)ret = c04_blk(T_SM_ACK); }
 void _ZN5QXmpp7Private12serializeXmlINS0_9SmRequestEEE10QByteArrayRKT_(char *ret, char *pkt) { *(QAD**)ret = c04_blk(T_SM_ACK); }
 void _ZN5QXmpp7Private12serializeXmlINS0_9CsiActiveEEE10QByteArrayRKT_(char *ret, char *pkt) { *(QAD**)ret = c04_blk(T_CSI); }
@@ -76,6 +77,11 @@ void _ZN5QXmpp7Private12serializeXmlINS0_11CsiInactiveEEE10QByteArrayRKT_(char *
 /* ---- signals of QXmppOutgoingClient (moc code): counted ------------------------------------------------------------------------------ */
 void _ZN19QXmppOutgoingClient9connectedERKN5QXmpp7Private12SessionBeginE(char *self, char *s) { c04_sig_connected++; }
 void _ZN19QXmppOutgoingClient13errorOccurredERK7QStringRKSt7variantIJN15QAbstractSocket11SocketErrorEN5QXmpp12TimeoutErrorENS6_11StreamErrorENS6_19AuthenticationErrorENS6_9BindErrorEEEN11QXmppClient5ErrorE(char *self, char *text, char *details, uint32_t old) { c04_sig_error++; }
+
+void _ZN19QXmppOutgoingClient12disconnectedERKN5QXmpp7Private10SessionEndE(char *self, char *s) { c04_sig_other++; }
+void _ZN19QXmppOutgoingClient10iqReceivedERK7QXmppIq(char *self, char *iq) { c04_sig_other++; }
+/* elementReceived(element, handled&): nobody is connected (extension handlers of QXmppClient are outside), `handled` stays false */
+void _ZN19QXmppOutgoingClient15elementReceivedERK11QDomElementRb(char *self, char *el, char *handled) { c04_sig_other++; }
 
 /* ---- Qt value classes that are only default-constructed / copied / destroyed as members (content irrelevant here) -------------------- */
 void _ZN13QNetworkProxyC1Ev(char *self) { *(char**)self = 0; }
